@@ -115,6 +115,10 @@ type GenesisOptions struct {
 	RtRoundTimeout      int64    // executor round timeout in blocks (default 5)
 	RtTwoVersions       bool     // the runtime has a second deployment (version 1.0.0) valid from epoch 3; node 1 is registered for the old version only
 	Prefix              []string // letter names executed (one block each) before the explored history starts: part of the initial state (interpreted by the engines, not by Genesis)
+	Feature261          bool     // consensus feature version 26.1 (runtime owner index, node / runtime admission rules of 26.1 after genesis)
+	VRF                 bool     // VRF beacon backend (the production one): epochs of EpochInterval blocks, proofs accepted VRFDelay blocks after an epoch starts, alpha is high quality with >= VRFThreshold proofs
+	VRFDelay            int64    // proof submission delay (default 1)
+	VRFThreshold        uint64   // alpha high-quality threshold (default 2)
 	Vault               bool     // a vault (creator account 0, id 1) with balance 100 exists at genesis: admin {a0,a1} threshold 1, suspend {a1}, withdraw policy 60 per 10 blocks for account 1
 
 }
@@ -247,6 +251,12 @@ func Genesis(k *Keys, o GenesisOptions) (*genesis.Document, error) {
 	nEnt := len(k.Entities)
 	for len(o.Escrow) < nEnt {
 		o.Escrow = append(o.Escrow, uint64(1000*(len(o.Escrow)+1)))
+	}
+	if o.VRFDelay == 0 {
+		o.VRFDelay = 1
+	}
+	if o.VRFThreshold == 0 {
+		o.VRFThreshold = 2
 	}
 	doc := &genesis.Document{
 		Height:  1,
@@ -477,6 +487,21 @@ func Genesis(k *Keys, o GenesisOptions) (*genesis.Document, error) {
 				return nil, err
 			}
 			doc.Registry.Nodes = append(doc.Registry.Nodes, sn3)
+		}
+	}
+	if o.Feature261 {
+		v := version.MustFromString("26.1")
+		doc.Consensus.Parameters.FeatureVersion = &v
+	}
+	if o.VRF {
+		doc.Beacon.Parameters = beacon.ConsensusParameters{
+			Backend: beacon.BackendVRF,
+			VRFParameters: &beacon.VRFParameters{
+				AlphaHighQualityThreshold: o.VRFThreshold,
+				Interval:                  o.EpochInterval,
+				ProofSubmissionDelay:      o.VRFDelay,
+				GasCosts:                  transaction.Costs{beacon.GasOpVRFProve: 2},
+			},
 		}
 	}
 	return doc, nil
